@@ -244,7 +244,11 @@ def evaluate_expression(expr, options=None, locals_=None, builtins=True):
             except Exception as error: # pylint: disable=broad-exception-caught
                 # Log and return null
                 if options is not None and 'logFn' in options and options.get('debug'):
-                    options['logFn'](f'BareScript: Function "{func_name}" failed with error: {error}')
+                    try:
+                        error_text = str(error)
+                    except Exception: # pylint: disable=broad-exception-caught
+                        error_text = type(error).__name__
+                    options['logFn'](f'BareScript: Function "{func_name}" failed with error: {error_text}')
                 if isinstance(error, ValueArgsError):
                     return error.return_value
                 return None
